@@ -180,6 +180,7 @@ def generated(draw):
 
 class C25(Check):
     id = "C25"
+    thorough_pinned = True  # full thorough enumeration observed quiet on the unchanged tree
     level = "exploration"
     shrink_fields = ()
     rule = (
